@@ -99,6 +99,12 @@ CLAIMED = {
         ref="DESIGN.md §8 C07",
         technique="deterministic simulation with fault injection: real CLI subprocesses under a deterministic solver shim over a seeded invocation matrix; decoded text checked against the captured layout plan and the API blueprint",
     ),
+    "C17": dict(
+        engine="factosim-exec",
+        text="Seeded exploration of the import path and the library: (A) import histories on a real scratch file system - chains, diamonds, cycles, one file under two spellings (sub/../x), files next to an importer in a sub-directory, the bundled library under both documented spellings - compiled from 2-3 working directories each; every compile must terminate (wall-bounded), define each function once, and yield the canonical circuit of the pasted twin; (B) every function of lib/math.facto is called on typed inputs, compiled under an injected layout fault plan and executed in the circuit model over boundary-biased int32 argument tuples restricted to the documented non-overflowing domain; the settled result must equal the documented mathematical definition.",
+        note="Trusted base: the pasted-twin expander and the table of documented definitions in factosim/props/c17.py; world model.",
+        ref="DESIGN.md §8 C17",
+    ),
 }
 
 NOT_YET = {}
